@@ -409,12 +409,9 @@ Definition lhs (prefer_stmt : bool) : M (option (cmarker * bool)) :=
 
 (* rust: current_op -- (binding power, operator kind, right-associative?) *)
 Definition NOT_AN_OP : nat * N * bool := (0, K_DOT3, false).
-Definition current_op : M (nat * N * bool) :=
-  fun s =>
-  let p := pos s in
+Definition current_op_val (p : nat) : nat * N * bool :=
   let att k := nth_at_pure p 0 k in
   let k := kind_at p in
-  Ok (
   if keq k K_PIPE then
     if att K_PIPE2 then (3, K_PIPE2, false) else if att K_PIPEEQ then (1, K_PIPEEQ, true) else (6, K_PIPE, false)
   else if keq k K_R_ANGLE then
@@ -445,7 +442,8 @@ Definition current_op : M (nat * N * bool) :=
     if att K_NEQ then (5, K_NEQ, false) else NOT_AN_OP
   else if keq k K_MINUS then
     if att K_MINUSEQ then (1, K_MINUSEQ, true) else (10, K_MINUS, false)
-  else NOT_AN_OP) s.
+  else NOT_AN_OP.
+Definition current_op : M (nat * N * bool) := fun s => Ok (current_op_val (pos s)) s.
 
 Definition expr_bp (m : option marker) (prefer_stmt : bool) (bp : nat)
   : M (option (cmarker * bool)) :=
